@@ -249,6 +249,17 @@ pub fn parse_docs(attrs: &[Attribute]) -> Result<String> {
         }
     };
 
+    // The documentation must not be able to end the comment: `*/` inside the text (also where a
+    // line starting with `/` follows the ` *` put in front of it) is written as `*\/`.
+    let docs = match docs.strip_prefix("/**").and_then(|d| d.strip_suffix("*/\n")) {
+        Some(text) if text.contains("*/") || text.starts_with('/') => {
+            let text = text.replace("*/", "*\\/");
+            let pad = if text.starts_with('/') { " " } else { "" };
+            format!("/**{pad}{text}*/\n")
+        }
+        _ => docs,
+    };
+
     // An empty line inside the comment would be taken for the separator between two declarations
     // when several types are exported to the same file, so it is written as ` *` instead.
     if !docs.contains("\n\n") {
